@@ -565,14 +565,21 @@ def optimizer_traces(ctx, n):
     traces = []
     combos = [("GN", ["Triggs", "FastTriggs"]), ("GN", ["FastTriggs", "Triggs"]), ("GN", ["auto", "auto"]),
               ("GN", ["Triggs"]), ("LM", ["Triggs", "FastTriggs"]), ("LM", ["auto"]), ("LM", ["Triggs"]),
-              ("GN", ["Triggs", "Triggs", "FastTriggs"])]
+              ("GN", ["Triggs", "Triggs", "FastTriggs"]),
+              # a kernel list with None entries (documented: "the element must be nn.Module or None"): group without a kernel
+              ("GN", ["auto", "auto"], (0,)), ("LM", ["auto", "auto"], (1,)), ("GN", ["auto", "auto", "auto"], (1,))]
+    ident = ([F(1)], {F(x): classify([F(1)], F(x)) for x in (0, 1, 2, 3, 4, 9)})
     t = 0
     while len(traces) < n and t < 8 * n:
         t += 1
-        opt, corrs = combos[len(traces) % len(combos)]
+        combo = combos[len(traces) % len(combos)]
+        opt, corrs = combo[0], combo[1]
+        none_idx = combo[2] if len(combo) > 2 else ()
         G = max(2, len(corrs))
         single = len(corrs) == 1
         kerns = [rng.choice(masked)] if single else [rng.choice(masked if corrs[g] == "Triggs" else fam) for g in range(G)]
+        for g in none_idx:
+            kerns[g] = ident
         P = rng.randint(1, 3)
         rows, Ms, grp = [], [], []
         ok = True
@@ -602,11 +609,11 @@ def optimizer_traces(ctx, n):
         if len(Rall) * max(s[1] for s in shapes) > 24 or not _bound_rows(rows, g1s, g2s):
             continue
 
-        traces.append(run_opt(opt, corrs, [kn[0] for kn in kerns], rows, theta0))
+        traces.append(run_opt(opt, corrs, [kn[0] for kn in kerns], rows, theta0, none_idx))
     return traces
 
 
-def run_opt(opt, corrs, kcoeffs, rows, theta0):
+def run_opt(opt, corrs, kcoeffs, rows, theta0, none_idx=()):
     """One GN / LM step of the real optimiser on a linear model whose residual groups are `rows`
     (group g = (R rows, J blocks)), observed at the linear solver.  Returns the trace."""
     import torch
@@ -637,7 +644,10 @@ def run_opt(opt, corrs, kcoeffs, rows, theta0):
             self.A, self.b = A.detach().clone(), b.detach().clone()
             return torch.zeros(A.shape[-1], 1, dtype=A.dtype)
 
-    mods = [make_poly(torch, c) for c in kcoeffs]
+    mods = [None if g in none_idx else make_poly(torch, c) for g, c in enumerate(kcoeffs)]   # None: rho(x) = x
+    for g in none_idx:
+        if [F(v) for v in kcoeffs[g]] != [F(1)]:
+            raise MachineryError("a None kernel must be recorded as the identity kernel")
 
     def mkcorr(name, m):
         return Triggs(m) if name == "Triggs" else FastTriggs(m)
@@ -658,7 +668,7 @@ def run_opt(opt, corrs, kcoeffs, rows, theta0):
     else:
         o = pp.optim.LM(model, solver=rec, strategy=pp.optim.strategy.Constant(damping=1.0), **kw)
     cfg = {"kind": "opt", "opt": opt, "corrs": corrs, "kernels": [[rat(v) for v in c] for c in kcoeffs],
-           "dtype": "float64"}
+           "dtype": "float64", "none": list(none_idx)}
     ev = {"act": opt.lower(), "k": 1, "R": enc(Rall), "J": enc(Jall), "grp": gl, "raised": False}
     try:
         loss = o.step(torch.zeros(1, dtype=dt), target=targets)
@@ -710,7 +720,8 @@ def rerun_opt_trace(tr):
         idx = [i for i, gg in enumerate(e["grp"]) if gg == g]
         rows.append(([R[i] for i in idx], [J[i] for i in idx]))
     P = len(J[0][0])
-    return run_opt(cfg["opt"], cfg["corrs"], [[F(n, d) for n, d in c] for c in cfg["kernels"]], rows, [F(0)] * P)
+    return run_opt(cfg["opt"], cfg["corrs"], [[F(n, d) for n, d in c] for c in cfg["kernels"]], rows, [F(0)] * P,
+                   tuple(cfg.get("none", ())))
 
 
 def _bound_rows(rows, g1s, g2s):
